@@ -108,6 +108,7 @@ class G:
         n2 = sum(a * a for a in u); d = 1 + n2
         q = [2 * a / d for a in u] + [(1 - n2) / d]
         if s == "tiny_neg": q = [-a for a in q]
+        if nopi and q[3] == 0: return self.unit4("generic_pos")     # exactly a half turn: excluded on request
         return q
     NU4_STRATA = ["eps_exact", "eps_just_below", "eps_just_above", "taylor_at", "taylor_below", "taylor_above", "taylor_neg_w", "scaled"]
     def nonunit4(self, stratum=None):
